@@ -11,6 +11,14 @@ normalised, is the user's directory or inside it (mutations strictly inside),
 the other user's tree and the credential files are byte-identical afterwards;
 on the dict backend another user's namespace never changes.
 
+Round 5: before the proofs are built, Namespace/LayoutGen.v and LayoutFxGen.v are
+regenerated from layout.py of the repo under check (harness/translate_layout.py,
+translate_layout_fx.py; harness/layoutgen.py holds a lock for the whole run);
+families layout_gen / layout_fx validate the generated definitions against the
+real functions (harness/layoutgen.py, layoutfx.py); section clone
+(harness/c08_clone.py) monitors two users whose maildirs are byte copies of each
+other with interleaved commands.
+
 The maildir store is always a fresh tempfile.mkdtemp() directory.
 """
 from __future__ import annotations
@@ -664,6 +672,13 @@ def sec_dict_isolation(ctx) -> None:
 
 
 def run(ctx) -> None:
+    from .. import layoutgen
+    from ..pymap_env import REPO
+    with layoutgen.exclusive(REPO):
+        _run(ctx)
+
+
+def _run(ctx) -> None:
     ctx.rule = ('programs of 7-13 commands (CREATE/DELETE/RENAME/SUBSCRIBE/UNSUBSCRIBE/STATUS/EXAMINE/'
                 'APPEND/COPY/LIST/LSUB) for user u1 with hostile names (empty, ".", "..", doubled/'
                 'leading/trailing "/", NUL, control characters, "../u2", reserved maildir names, '
@@ -679,15 +694,38 @@ def run(ctx) -> None:
         'name-derived and are exempt; reads of the Python runtime and of /repo are exempt',
         'no symbolic links inside the store (normpath, not realpath, is what the theorem speaks about)',
     ]
-    ctx.check_proofs(['Namespace/PathsCheck'])
-    sec_maildir(ctx)
-    sec_dict_isolation(ctx)
-    sec_pure(ctx)
+    # the generated model of layout.py is rewritten from the repo under check *before* the
+    # proofs are built: Namespace/LayoutGenProofs.v must re-prove that it equals the hand model
+    from .. import layoutgen
+    from ..pymap_env import REPO
+    ctx.assumptions += [
+        'os.fsencode is modelled for the UTF-8 filesystem encoding with surrogateescape (CPython >= 3.7 '
+        'on POSIX with a UTF-8 locale or UTF-8 mode); str.split/str.join/`in`/os.path.join are the '
+        'hand-written Namespace/PyStr.v and Paths.path_join, compared with CPython by the layout_gen family',
+    ]
+    layoutgen.regenerate(ctx, REPO)
+    ctx.check_proofs(['Namespace/PathsCheck', 'Namespace/LayoutGenCheck', 'Namespace/LayoutFxCheck'])
+    # debugging aid: VERIF_C08_SECTIONS=maildir,dict,pure,layout_gen,layout_fx,clone (default: all)
+    only = [x for x in os.environ.get('VERIF_C08_SECTIONS', '').split(',') if x]
+    from .. import layoutfx, c08_clone
+    for name, sec in (('maildir', lambda: sec_maildir(ctx)),
+                      ('dict', lambda: sec_dict_isolation(ctx)),
+                      ('pure', lambda: sec_pure(ctx)),
+                      ('layout_gen', lambda: layoutgen.sec_layout_gen(ctx, NS.JOBS)),
+                      ('layout_fx', lambda: layoutfx.sec_layout_fx(ctx, NS.JOBS, TRACER)),
+                      ('clone', lambda: c08_clone.sec_clone(ctx, TRACER, sys.modules[__name__]))):
+        if not only or name in only:
+            sec()
+    if only:
+        ctx.extra['sections_only'] = only
     NS.JOBS.run(ctx)
 
 
 def replay(ctx, obj) -> int:
     from ..pymap_env import run
+    if 'clone_events' in obj:
+        from .. import c08_clone
+        return c08_clone.replay(obj, TRACER, sys.modules[__name__])
     if 'cmds' in obj and 'layout' in obj:
         cmds = [tuple(c) for c in obj['cmds']]
         TRACER.install()
